@@ -715,7 +715,11 @@ def main(argv):
     cov["discharged"] = proof.get("discharged", 0)
     cov["theorems"] = proof.get("theorems", [])
     cov["checker_cmd"] = proof.get("checker_cmd", "lake build (failed)")
-    cov["trusted_base"] = TRUSTED + prop.get("trusted", [])
+    cov["trusted_base"] = TRUSTED + prop.get("trusted", []) + ([
+        "the Go-to-Lean translator /verif/translate and its prelude GoSSE/GoRT.lean (the semantics it gives to the subset of Go it accepts: "
+        "the list of assumptions at the head of GoRT.lean and in DESIGN.md section 4); for the translated functions the hand-written "
+        "model is not trusted: it is proved equal to the generated text, which is regenerated from /repo on every run",
+    ] if prop.get("generated_layer") else [])
     cov["correspondence_failures"] = len([v for v in violations if v["kind"] == "correspondence"])
     cov["oracle_failures"] = len([v for v in violations if v["kind"] == "property"])
     ev = {"property_id": pid, "tier": "thorough" if thorough else "quick", "seed": seed, "level": "proof",
